@@ -44,7 +44,7 @@ def run(ctx, col, tier):
     col.guard(returns, ctx, col)
     col.guard(sholl, ctx, col)
     geo, res = geosinks.check_sinks(ctx, col, "R-GEO", only=lambda q: ".volume" not in q and "volumetric" not in q)
-    geosinks.report(col, "R-GEO", res)
+    geosinks.report(col, "R-GEO", res, repo=ctx.repo)
     col.analysed["geo_summaries"] = len(geo.memo)
     col.guard(definitions, ctx, col)
     col.guard(c08.thresholds, ctx, col)
